@@ -127,6 +127,8 @@ class RFrame:
                    self.sorted if sorted_ is None else sorted_, self.index_tag if index_tag is None else index_tag, self.label)
         f.filters = list(self.filters) + ([note] if note else [])
         f.root = self.root
+        # a derivation that keeps every row (copy, column subset, rename, sort) keeps the NUMBER of rows: the length ghost is shared
+        f.len_uid = getattr(self, "len_uid", None) or self.uid if mult is None else None
         return f
 
     def member(self):
@@ -256,7 +258,9 @@ class RFrame:
                 interp.run.check(f"safety.reindex_unique[{interp.where(None)}]", to_z3(self.mult) <= 1, kind="safety", loc=f"line {getattr(node, 'lineno', '?')}")
                 here = self.member()
                 cells = OrderedDict((c, cell_ite(here, v, NAN_CELL)) for c, v in self.cells.items())
-                return self.derive(mult=tgt.mult, cells=cells, note=f"reindex(frame#{tgt.uid})")
+                out = self.derive(mult=tgt.mult, cells=cells, note=f"reindex(frame#{tgt.uid})")
+                out.len_uid = getattr(tgt, "len_uid", None) or tgt.uid        # one row per label of `index` (unique labels)
+                return out
             return _Callable(reindex)
         if name in self.cells:
             return self.sym_getitem(interp, name, node)
@@ -321,7 +325,7 @@ class RFrame:
 
     def sym_len(self, interp, node):
         # the number of rows is a global quantity: an unknown integer, at least 1 when the arbitrary row is a member
-        n = z3.Int(f"len!{self.uid}")
+        n = z3.Int(f"len!{getattr(self, 'len_uid', None) or self.uid}")
         interp.run._add(z3.And(n >= 0, z3.Implies(self.member(), n >= 1)))
         return n
 
